@@ -6,12 +6,18 @@
 typedef Goldilocks::Element E;
 typedef unsigned __int128 u128;
 
-static std::map<int, std::vector<uint64_t>> X;
+// base vectors: X[d][v] (v = 0 is the seeded mixed-representation vector, v >= 1 structured vectors: deltas with extreme
+// values, constant vectors of p-1 / 2^64-1, alternating boundary values)
+static std::map<int, std::vector<std::vector<uint64_t>>> X;
+static std::map<int, std::vector<uint64_t>> Krows;
 static std::vector<uint64_t> Mc;
 
-static uint64_t cell(int d, uint64_t j, uint64_t c)
+static uint64_t cell(int d, int xv, uint64_t j, uint64_t c)
 {
-    uint64_t x = X[d][j] % vh::PRIME, m = Mc[c] % vh::PRIME;
+    uint64_t raw = X[d][xv][j];
+    if (xv > 0 && c == 0)
+        return raw; // column 0 carries the structured vector verbatim (multiplier 1), representation included
+    uint64_t x = raw % vh::PRIME, m = Mc[c] % vh::PRIME;
     uint64_t v = (uint64_t)(((u128)x * m) % vh::PRIME);
     // representation mix: some cells in the non-canonical band [p, 2^64)
     if (((j * 7 + c * 3 + d) % 5 == 0) && v < 0xFFFFFFFFULL)
@@ -24,6 +30,7 @@ struct Call
     std::string call, dst, buf;
     int d, e;
     uint64_t ncols, nphase, nblock;
+    int xv = 0;
 };
 
 struct Result
@@ -44,7 +51,7 @@ static Result run_call(NTT_Goldilocks &obj, const Call &c)
     vh::GBuf in = vh::galloc((other ? N : outRows) * nc, GARB);
     for (uint64_t j = 0; j < N; j++)
         for (uint64_t k = 0; k < nc; k++)
-            in.p[j * nc + k] = cell(c.d, j, k);
+            in.p[j * nc + k] = cell(c.d, c.xv, j, k);
     std::vector<uint64_t> in0(in.p, in.p + in.n);
     vh::GBuf out;
     if (other)
@@ -74,3 +81,26 @@ static Result run_call(NTT_Goldilocks &obj, const Call &c)
     return R;
 }
 
+
+// input file: X <d> <v> <2^d words> | M <k> <k words> | K <d> <row indices>
+static void load_inputs(const char *path)
+{
+    for (auto &t : vh::read_cases(path))
+    {
+        if (t[0] == "X")
+        {
+            int d = atoi(t[1].c_str());
+            size_t v = (size_t)atoi(t[2].c_str());
+            if (X[d].size() <= v)
+                X[d].resize(v + 1);
+            for (size_t i = 3; i < t.size(); i++)
+                X[d][v].push_back(vh::parse_u64(t[i]));
+        }
+        else if (t[0] == "M")
+            for (size_t i = 2; i < t.size(); i++)
+                Mc.push_back(vh::parse_u64(t[i]));
+        else if (t[0] == "K")
+            for (size_t i = 2; i < t.size(); i++)
+                Krows[atoi(t[1].c_str())].push_back(vh::parse_u64(t[i]));
+    }
+}
